@@ -24,7 +24,7 @@ type ProbeScript struct {
 	// complete valid hello (metadata for the monitor).
 	ValidPrefix int
 	Policy      memwire.ChunkPolicy // how the server's reads are chunked (nil = all)
-	Window     int                 // bounded window on the probe->server direction
+	Window      int                 // bounded window on the probe->server direction
 }
 
 // ProbeResult is what the monitor observed at the server's boundary.
